@@ -333,8 +333,8 @@ def check_planar(ctx, R="C04.planar"):
 
 
 def check(ctx):
-    check_computed(ctx)
-    check_transforms(ctx)
-    check_polarity(ctx)
-    check_fallthrough(ctx)
-    check_planar(ctx)
+    ctx.run(check_computed)
+    ctx.run(check_transforms)
+    ctx.run(check_polarity)
+    ctx.run(check_fallthrough)
+    ctx.run(check_planar)
